@@ -799,13 +799,24 @@ func (e *lockupEnv) paramsStr() string {
 // exportImport: the REAL ExportGenesis (through the JSON codec, as AppModule does), the lockup store wiped
 // (records, index, last id, accumulation trees) and the params reset, then the REAL InitGenesis.  The bank is
 // left alone (it is another module's genesis).  The history continues on the imported store.
-// Oracle (C19): everything observable must be what it was: raw records/index/last-id bytes, params, the
-// accumulation of every real denomination at every duration of the closure, and (through e.oracle) every
-// keeper query against the shadow list.
-func (e *lockupEnv) exportImport() {
+// Oracle (C19): everything observable must be what it was: raw records/index/last-id bytes (synthetic lock records and
+// their time index included), params, the accumulation of every real denomination at every duration of the closure,
+// the WHOLE accumulation store by meaning (lockupDerivedOracle: every denomination that has a tree, synthetic ones
+// included, leaf by leaf against a from-scratch sum over the imported lock records, against the exporting chain, and
+// the keeper's answers against the leaves), and (through e.oracle) every keeper query against the shadow list.
+// emit=false: the oracle-only variant used inside the keeper tail (the model does not follow the tail).
+func (e *lockupEnv) exportImport() { e.exportImportCore(true) }
+
+func (e *lockupEnv) exportImportCore(emit bool) bool {
 	k := e.h.App.LockupKeeper
 	o := e.o
 	cdc := e.h.App.AppCodec()
+	skey := e.h.App.GetKey(lockuptypes.StoreKey)
+	emitf := func(op, obs string) {
+		if emit {
+			o.Emit(op, obs, true)
+		}
+	}
 	preRaw := e.rawStore()
 	preParams := e.paramsStr()
 	preAcc := map[string]string{}
@@ -815,13 +826,15 @@ func (e *lockupEnv) exportImport() {
 		}
 	}
 	preEmpty := e.accumStr("", 0)
+	preLeaves, _, _ := lockupAccumLeaves(e.ctx(), skey)
+	nClusters, nDiffering := lockupSynthClusters(e.ctx(), k)
 	var bz []byte
 	if !catch(func() { bz = cdc.MustMarshalJSON(k.ExportGenesis(e.ctx())) }) {
-		o.Emit("lockup exportimport", "panic", true)
-		o.Fail("lockup:export-import:export-panics", "")
-		return
+		emitf("lockup exportimport", "panic")
+		o.Fail("lockup:export-import:export-panics", e.histStr())
+		return false
 	}
-	store := e.ctx().KVStore(e.h.App.GetKey(lockuptypes.StoreKey))
+	store := e.ctx().KVStore(skey)
 	var keys [][]byte
 	it := store.Iterator(nil, nil)
 	for ; it.Valid(); it.Next() {
@@ -834,13 +847,20 @@ func (e *lockupEnv) exportImport() {
 	k.SetParams(e.ctx(), lockuptypes.NewParams([]string{e.addrs["X"].String()})) // a fresh chain has no such params
 	var gs lockuptypes.GenesisState
 	if !catch(func() { cdc.MustUnmarshalJSON(bz, &gs); k.InitGenesis(e.ctx(), gs) }) {
-		o.Emit("lockup exportimport", "panic", true)
-		o.Fail("lockup:export-import:import-panics", "")
-		return
+		emitf("lockup exportimport", "panic")
+		o.Fail("lockup:export-import:import-panics", e.histStr())
+		return false
 	}
-	o.Emit("lockup exportimport", "ok", true)
+	emitf("lockup exportimport", "ok")
 	o.Count("exportimport")
 	o.Count(fmt.Sprintf("exportimport.locks.%d", min(len(gs.Locks), 6)))
+	o.Count(fmt.Sprintf("exportimport.synthetic-locks.%s", bucketOf(len(gs.SyntheticLocks), 1, 2, 4, 8)))
+	if nClusters > 0 {
+		o.Count("exportimport.synthetic-denom-with->=2-locks-at-one-duration")
+	}
+	if nDiffering > 0 {
+		o.Count("exportimport.synthetic-denom-with->=2-locks-at-one-duration.lock-duration-differs")
+	}
 	postRaw := e.rawStore()
 	if strings.Join(preRaw, "\n") != strings.Join(postRaw, "\n") {
 		pre := map[string]bool{}
@@ -861,7 +881,7 @@ func (e *lockupEnv) exportImport() {
 		if len(diff) > 6 {
 			diff = diff[:6]
 		}
-		o.Fail("lockup:export-import:records-or-index-or-lastid-differ", strings.Join(diff, " "))
+		o.Fail("lockup:export-import:records-or-index-or-lastid-differ", strings.Join(diff, " ")+e.histStr())
 	}
 	if p := e.paramsStr(); p != preParams {
 		o.Fail("lockup:export-import:params", fmt.Sprintf("before %q after %q", preParams, p))
@@ -876,15 +896,47 @@ func (e *lockupEnv) exportImport() {
 			o.Fail("lockup:export-import:accumulation", fmt.Sprintf("denom %s duration>=%d before %s after %s", dn, d, v, got))
 		}
 	}
+	// the whole accumulation store, synthetic denominations included
+	lockupDerivedOracle(e.ctx(), k, skey, preLeaves, func(cls, detail string) {
+		o.Fail("export-import:derived-store-differs:lockup:accumulation:"+cls, detail+e.histStr())
+	}, o.Count)
+	// ... and against the engine's own shadow of the live synthetic locks (shares nothing with the keeper's records)
+	if e.synth != nil {
+		pts := e.accumPoints()
+		for sd := range e.synthDenoms {
+			base := sd[:strings.Index(sd, "/super")]
+			for _, d := range pts {
+				var intent int64
+				if d >= 0 {
+					for id, sy := range e.synth {
+						if l, ok := e.shadow[id]; ok && sy.denom == sd && sy.dur >= d {
+							intent += l.amt
+						}
+					}
+				}
+				got := "panic"
+				catch(func() { got = e.accum(sd, d).String() })
+				if got != e.real(base, intent).String() {
+					o.Fail("export-import:derived-store-differs:lockup:accumulation:synthetic-denom:query-vs-live-synthetic-locks",
+						fmt.Sprintf("after export/import: accumulation(%s, duration>=%d) = %s, live synthetic locks' underlying amounts sum to %s%s", sd, d, got, e.real(base, intent), e.histStr()))
+				}
+			}
+			o.Count("exportimport.synthetic-denom-queried")
+		}
+	}
 	// the accumulation tree of the non-denomination "" (F6) is not rebuilt: recorded, not a property failure
 	if post := e.accumStr("", 0); post != preEmpty {
 		o.Count("exportimport.empty-denom-accum-dropped")
+	}
+	if !emit {
+		return true
 	}
 	e.oracle("exportimport")
 	o.Emit("lockup accumempty 0", e.accumStr("", 0), true)
 	o.Emit("lockup params", e.paramsStr(), true)
 	e.dump()
 	e.observe(4)
+	return true
 }
 
 func (e *lockupEnv) randLock(p func(l *shLock) bool) *shLock {
